@@ -119,16 +119,22 @@ impl EventSender<'_> {
 
 impl EventSource for EventSender<'_> {
     fn subscribe(&mut self, co: CoroutineImpl) {
-        self.cqueue.ev_queue.push(Event {
+        // once the event is pushed the poller may resume the coroutine, which may run to
+        // its end and let the cqueue go away: don't touch self after the push and mark
+        // the cqueue busy, its drop waits for that
+        let cqueue = self.cqueue;
+        cqueue.busy.fetch_add(1, Ordering::AcqRel);
+        cqueue.ev_queue.push(Event {
             id: self.id,
             token: self.token,
             extra: self.extra.load(Ordering::Relaxed),
             kind: EventKind::Normal,
             co: Some(co),
         });
-        if let Some(w) = self.cqueue.to_wake.take() {
+        if let Some(w) = cqueue.to_wake.take() {
             w.unpark();
         }
+        cqueue.busy.fetch_sub(1, Ordering::AcqRel);
     }
 
     fn yield_back(&self, _cancel: &'static Cancel) {
@@ -139,6 +145,8 @@ impl EventSource for EventSender<'_> {
 impl Drop for EventSender<'_> {
     // when the select coroutine finished will trigger this drop
     fn drop(&mut self) {
+        // the poller may see cnt == 0 and leave before we are done here
+        self.cqueue.busy.fetch_add(1, Ordering::AcqRel);
         self.cqueue.ev_queue.push(Event {
             id: self.id,
             token: self.token,
@@ -150,6 +158,7 @@ impl Drop for EventSender<'_> {
         if let Some(w) = self.cqueue.to_wake.take() {
             w.unpark();
         }
+        self.cqueue.busy.fetch_sub(1, Ordering::AcqRel);
     }
 }
 
@@ -167,6 +176,8 @@ pub struct Cqueue {
     total: AtomicUsize,
     // panic status
     is_panicking: AtomicBool,
+    // how many event senders are still using the cqueue after publishing their event
+    busy: AtomicUsize,
 }
 
 impl Cqueue {
@@ -317,6 +328,10 @@ impl Drop for Cqueue {
                 _ => unreachable!("cqueue drop unreachable"),
             }
         }
+        // an event sender may still be waking us up after it published its event
+        while self.busy.load(Ordering::Acquire) != 0 {
+            crate::yield_now::yield_now();
+        }
         if let Some(c) = cancel.as_ref() {
             c.enable_cancel();
         }
@@ -339,6 +354,7 @@ where
         selectors: Mutex::new(Vec::new()),
         total: AtomicUsize::new(0),
         is_panicking: AtomicBool::new(false),
+        busy: AtomicUsize::new(0),
     };
     f(&cqueue)
 }
